@@ -305,6 +305,12 @@ def boundary_programs(rng):
             ops.append(("wp", ("u8", 1)))
             ops.append(("wp", ("u16", 2)))
             progs.append((("new", 0x21, 0x11), ops))
+            # ... and each remaining payload kind as the write that meets the full writer (a `Type` goes
+            # through `write`, everything else through `write_all`)
+            for last in (("wp", ("ty", "ssl")), ("wps", [("ty", "alpn"), ("ty", "noop")]), ("wp", ("ad", rand_addr(rng, "ipv4"))),
+                         ("tlv", 4, b"xy"), ("wp", ("sec", b"\x04\x00\x00")), ("wp", ("sl", b"")), ("wps", [])):
+                progs.append((("new", 0x21, 0x11), ops[:-2] + [last]))
+                progs.append((("new", 0x21, 0x11), ops[:-2] + [("wp", ("u8", 1)), last]))
     # oversized single values
     for n in (65535, 65536, 70000):
         v = bytes([3]) * n
